@@ -572,6 +572,12 @@ pub fn main(args: &Args) -> i32 {
     if gen == "threads" {
         return crate::threads::main(args, seed, &mode, sh);
     }
+    if gen == "evolve" {
+        crate::evolve::run(&mut sh, &mode, seed, shard, nshards, count, &faults, upto, verbose);
+        emit_stats(&mut sh.rep);
+        sh.rep.emit();
+        return 0;
+    }
     if gen == "policy" {
         let rounds = args.u64("--rounds", 20);
         let steps = args.u64("--steps", 400);
